@@ -199,11 +199,21 @@ class FeArray(np.ndarray):
 
         # np.matmul(a, b) called as a function follows the same rank rule as `a @ b` (numpy's own
         # matmul would take a vector field for a stack of matrices whenever nPg matches)
-        if ufunc is np.matmul and method == "__call__" and not kwargs and len(inputs) == 2:
+        if ufunc is np.matmul and method == "__call__" and len(inputs) == 2:
             left, right = inputs
             if isinstance(left, FeArray):
-                return FeArray.__matmul__(left, right)
-            return FeArray.__rmatmul__(right, left)
+                res = FeArray.__matmul__(left, right)
+            else:
+                res = FeArray.__rmatmul__(right, left)
+            # keyword arguments do not change the rule
+            if kwargs.get("dtype") is not None:
+                res = res.astype(kwargs["dtype"])
+            out = kwargs.get("out")
+            if out is not None:
+                out = out[0] if isinstance(out, tuple) else out
+                out[...] = res
+                return out
+            return res
 
         # two fields of the same shape need no alignment and no rewrapping decision; this is
         # the overwhelming majority of calls, and it is what keeps small arrays cheap
